@@ -56,10 +56,18 @@ func (r *Result) Add(rule, construct, pos, status, detail string) {
 	r.Obls = append(r.Obls, Obligation{rule, construct, pos, status, detail})
 }
 
-func (r *Result) Hold(rule, construct, pos, detail string)   { r.Add(rule, construct, pos, Holds, detail) }
-func (r *Result) Viol(rule, construct, pos, detail string)   { r.Add(rule, construct, pos, Violated, detail) }
-func (r *Result) Undec(rule, construct, pos, detail string)  { r.Add(rule, construct, pos, Undecided, detail) }
-func (r *Result) Except(rule, construct, pos, detail string) { r.Add(rule, construct, pos, Excepted, detail) }
+func (r *Result) Hold(rule, construct, pos, detail string) {
+	r.Add(rule, construct, pos, Holds, detail)
+}
+func (r *Result) Viol(rule, construct, pos, detail string) {
+	r.Add(rule, construct, pos, Violated, detail)
+}
+func (r *Result) Undec(rule, construct, pos, detail string) {
+	r.Add(rule, construct, pos, Undecided, detail)
+}
+func (r *Result) Except(rule, construct, pos, detail string) {
+	r.Add(rule, construct, pos, Excepted, detail)
+}
 
 // Check records holds/violated by condition.
 func (r *Result) Check(ok bool, rule, construct, pos, detail string) {
